@@ -1169,7 +1169,13 @@ func buildAP(apkind string, srpB []byte, srpid int64, s1, s2 []byte, g int32, P 
 		var nilp *telegram.PasswordKdfAlgoSHA256SHA256PBKDF2HMACSHA512iter100000SHA256ModPow
 		return &telegram.AccountPassword{CurrentAlgo: nilp, SRPB: srpB, SRPID: srpid}
 	}
-	return &telegram.AccountPassword{HasPassword: true, CurrentAlgo: algo, SRPB: srpB, SRPID: srpid}
+	// the server's own secure_random (any length), hint and new-password algorithm take no part in the answer
+	sr := make([]byte, []int{0, 1, 32, 256}[int(uint64(srpid)%4)])
+	for i := range sr {
+		sr[i] = byte(srpid) + byte(i)*7
+	}
+	return &telegram.AccountPassword{HasPassword: true, CurrentAlgo: algo, SRPB: srpB, SRPID: srpid, SecureRandom: sr, Hint: "hint",
+		NewAlgo: &telegram.PasswordKdfAlgoUnknown{}}
 }
 
 // ---------------------------------------------------------------------------------------------
